@@ -21,9 +21,9 @@ def check(ctx):
         args = ['--bound', str(bound), '--jobs', str(min(vlib.NJOBS, 4 if ctx.tier == 'quick' else 12)), '--outdir', vlib.OUT, '--deadline', str(deadline)]
         ctx.run_engine(exe, args, label='arena-%s-b%d' % (sets, bound), timeout=deadline + 600, env=env)
     if ctx.tier == 'quick':
-        leg('a', 2, 45)
-        leg('k', 2, 10)
-        leg('b', 1, 15)
+        leg('a', 2, 30)
+        leg('k', 2, 6)
+        leg('b', 1, 8)
         ctx.run_engine(build_seq(ctx, 8), ['--outdir', vlib.OUT, '--deadline', '20'], label='arena-seq-d8', timeout=300)
     else:
         leg('a', 3, 300)
